@@ -282,19 +282,23 @@ def r4(ctx):
             ctx.check(ok, "C11.R4", f, "span measured with stream.tell() before and after the two fields", witness=[norm(t._parent)[:60] for t in tells])
         # short padding -> raise, and deserialize returns only past that test
         rv = norm(rd[0]._parent.targets[0]) if isinstance(rd[0]._parent, ast.Assign) and isinstance(rd[0]._parent.targets[0], ast.Name) else None
-        chk = []
-        for n in walk_own(de.node):
-            if isinstance(n, ast.If) and isinstance(n.test, ast.Compare) and len(n.test.ops) == 1 and isinstance(n.test.ops[0], ast.NotEq) and any(isinstance(s_, ast.Raise) for s_ in n.body):
-                sides = [n.test.left, n.test.comparators[0]]
+        # edge cut: with the edge on which len(<what was read>) equals the expected padding removed, no return is reachable
+        from .common import reach_without
+        cut = {}
+        for nd in dcfg.nodes:
+            if nd.kind == "test" and isinstance(nd.ast, ast.Compare) and len(nd.ast.ops) == 1 and isinstance(nd.ast.ops[0], (ast.Eq, ast.NotEq)):
+                sides = [nd.ast.left, nd.ast.comparators[0]]
                 lens = [x for x in sides if norm(x) == "len(%s)" % rv]
                 other = [x for x in sides if norm(x) != "len(%s)" % rv]
-                if len(lens) == 1 and len(other) == 1 and value(de, other[0], n.test) == n_r:
-                    chk.append(n)
-        ctx.check(rv is not None and len(chk) == 1, "C11.R4", de, "short padding -> raise", "a hello shorter than a full datagram is refused before any reply", witness=[norm(c.test) for c in chk])
-        if chk:
-            rets = [n for n in dcfg.stmts((ast.Return,))]
-            t = dcfg.node_of(chk[0].test)
-            ctx.check(all(dcfg.edge_dominates(t.id, "F", r.id) for r in rets), "C11.R4", de, "deserialize returns only after the padding check passed")
+                if len(lens) == 1 and len(other) == 1 and value(de, other[0], nd.ast) == n_r:
+                    cut[nd.id] = "T" if isinstance(nd.ast.ops[0], ast.Eq) else "F"
+        reach = reach_without(dcfg, dcfg.entry, cut)
+        rets = [n for n in dcfg.stmts((ast.Return,))]
+        rz = [n for n in dcfg.stmts((ast.Raise,)) if n.id in reach]
+        ctx.check(rv is not None and len(cut) == 1 and bool(rz), "C11.R4", de, "short padding -> raise", "a hello shorter than a full datagram is refused before any reply",
+                  witness=[norm(dcfg.nodes[k].ast) for k in cut])
+        if cut:
+            ctx.check(bool(rets) and not any(r.id in reach for r in rets) and dcfg.exit not in reach, "C11.R4", de, "deserialize returns only after the padding check passed")
     # (c) keep-alives only when CONNECTED
     bpi = ctx.fn("connection:ConnectionBase._build_packet_impl")
     bcfg = cfg_of(bpi)
